@@ -327,8 +327,10 @@ def rescale(img, scale, shape=None, mask=None, order=3, mode='nearest',
         else:
             shape = np.ceil((shape[0]*scale, shape[1]*scale)).astype(int)
 
-    x = (np.arange(shape[1], dtype=np.float64) - shape[1]/2.)/scale + img.shape[1]/2.
-    y = (np.arange(shape[0], dtype=np.float64) - shape[0]/2.)/scale + img.shape[0]/2.
+    # resample about the array centre sample n//2 (the origin used by mesh,
+    # ptt_vector, slice_offset and the DFT), for odd sizes too
+    x = (np.arange(shape[1], dtype=np.float64) - shape[1]//2)/scale + img.shape[1]//2
+    y = (np.arange(shape[0], dtype=np.float64) - shape[0]//2)/scale + img.shape[0]//2
 
     xx, yy = np.meshgrid(x, y)
 
